@@ -1,4 +1,5 @@
 import Ruint.Lemmas.MacroLit
+import Ruint.Lemmas.GenMacro
 
 /-!
 # C19 — `uint!` literals equal run-time parsing of the same digits; bad literals are rejected
@@ -130,5 +131,14 @@ example : transformLiteral "12u8".toList = .pass := by decide +kernel
 example : transformLiteral "\"U8\"".toList = .pass := by decide +kernel
 example : HasBase "0x10".toList 16 "10".toList := HasBase.hex _
 example : IsBody "1_000".toList := by unfold IsBody; decide
+
+/-- `pad_limbs` of the proc macro — the step that decides "the literal's value is `≥ 2^bits`: compile error" (trim trailing zero
+    limbs down to the limb count, pad up to it, then the length and top-limb test against the mask) — as regenerated from
+    `ruint-macro/src/lib.rs` on every run equals the model of the theorems above, for every suffix width below `2^64 - 63` and
+    every limb vector. -/
+theorem gen_pad_limbs_eq (bits : ℕ) (hB : bits + 63 < 2 ^ 64) (limbs : List ℕ) (f : ℕ)
+    (hf : limbs.length + nlimbs bits + 1 < f) :
+    Ruint.Gen.macro_pad_limbs f bits limbs = padLimbs bits limbs :=
+  Ruint.GenMacro.pad_limbs_eq bits hB limbs f hf
 
 end Ruint.C19
